@@ -3,12 +3,17 @@
 //   nopts { kind comp impl? dflt? }*   ops*
 //   kind 0 flag(store_true) 1 flag(store_false) 2 int 3 string 4 vector<int> 5 ValueMap store<int> 6 custom notifier
 //        7 ValueMap flag(store_true) 8 ValueMap flag(store_false)  (mapped_value.h factory flag(ValueMap&, FlagAction))
+//        9 ValueMap store<std::vector<int> >
 //   impl?/dflt? : 0 | 1 len bytes
 //   op  1 hasExcl [nExcl ids..] nPairs { optId len bytes }*  |  2 (assignDefaults)  |  3 (fresh ParsedOptions)
 //       4 k ids..   parsed.add("o<id>") for each id - any name: an option of the context or a FOREIGN name (id >= nopts); no observation
 //       5 nPairs { optId len bytes }*   parsed.assign(source of a SECOND OptionContext) on the SAME ParsedOptions object: the second context
 //         ("one ParsedOptions shared by two contexts reading the same command line") holds 6 plain std::string options o<nopts>..o<nopts+5>;
 //         pairs naming other ids are dropped. Afterwards the ParsedOptions holds names that are not options of the first context.
+//       6   NEW RUN: the option group, the context and every Value object of the first context are destroyed and built again from the same
+//         descriptors (fresh `storeTo(x)` / `store<T>(vm)` / `flag(vm)` / `notify(..)` values: state unassigned), and a fresh ParsedOptions
+//         is used; what SURVIVES is what the application keeps for the results: the bound variables, the ValueMap, the notifier's log.
+//         ("an application re-reads its configuration: new option set for every run, one ValueMap for the results"); no observation
 // Observation per op 1/2/5: err(0 | 1+type key len bytes) fault(0) parsed.size { state count varLen var.. }*
 #include "common.h"
 #include <memory>
@@ -28,11 +33,54 @@ static bool customNotify(Log* l, const std::string& name, const std::string& val
 	return true;
 }
 struct Target {
-	int kind; bool b; int i; std::string s; std::vector<int> v;
+	int kind; bool comp; bool b; int i; std::string s; std::vector<int> v;
 	std::string impl, dflt; bool hasImpl, hasDflt;
-	Target() : kind(0), b(false), i(-777), hasImpl(false), hasDflt(false) {}
+	Target() : kind(0), comp(false), b(false), i(-777), hasImpl(false), hasDflt(false) {}
 };
 static std::string optName(ll id) { return "o" + std::to_string(id); }
+
+struct OptSet {
+	std::unique_ptr<Po::OptionGroup>   g;
+	std::unique_ptr<Po::OptionContext> ctx;
+	// (re)builds group, context and Value objects from the descriptors in T; variables / map / log are the caller's and survive
+	void build(std::deque<Target>& T, Po::ValueMap& vm, Log& log) {
+		ctx.reset(); g.reset();             // the old option set dies first (its values do not own mapped objects)
+		g.reset(new Po::OptionGroup());
+		ctx.reset(new Po::OptionContext("ctx"));
+		const size_t n = T.size();
+		for (size_t k = 0; k != n; ++k) {
+			Target& t = T[k];
+			Po::Value* v = 0;
+			switch (t.kind) {
+				case 0: v = Po::flag(t.b); break;
+				case 1: v = Po::flag(t.b, Po::store_false); break;
+				case 2: v = Po::storeTo(t.i); break;
+				case 3: v = Po::storeTo(t.s); break;
+				case 4: v = Po::storeTo(t.v); break;
+				case 5: v = Po::store<int>(vm); break;
+				case 7: v = Po::flag(vm); break;
+				case 8: v = Po::flag(vm, Po::store_false); break;
+				case 9: v = Po::store<std::vector<int> >(vm); break;
+				default: v = Po::notify(&log, &customNotify); break;
+			}
+			if (t.comp)      v->composing();
+			// implicit value, default and (for two thirds of the options) an argument name go through one setter (Value::desc) whose
+			// storage depends on how many were set before: attach them in an order chosen from the case (all six orders occur)
+			{
+				static const int perm[6][3] = {{0,1,2},{0,2,1},{1,0,2},{1,2,0},{2,0,1},{2,1,0}};
+				size_t sel = k * 5 + n + (size_t)t.kind + t.impl.size() * 3 + t.dflt.size();
+				const int* pm = perm[sel % 6];
+				for (int j = 0; j != 3; ++j) {
+					if (pm[j] == 0 && (sel / 6) % 3 != 0) v->arg("<x>");
+					if (pm[j] == 1 && t.hasImpl) v->implicit(t.impl.c_str());
+					if (pm[j] == 2 && t.hasDflt) v->defaultsTo(t.dflt.c_str());
+				}
+			}
+			g->addOptions()(optName((ll)k).c_str(), v, "");
+		}
+		ctx->add(*g);
+	}
+};
 
 int main() {
 	Case c; Obs o;
@@ -40,43 +88,16 @@ int main() {
 		size_t n = (size_t)c.next();
 		std::deque<Target> T(n);
 		Po::ValueMap vm; Log log;
-		Po::OptionGroup g;
-		Po::OptionContext ctx("ctx");
+		OptSet os;
 		try {
 			for (size_t k = 0; k != n; ++k) {
 				Target& t = T[k];
 				t.kind = (int)c.next();
-				bool comp = c.next() != 0;
+				t.comp = c.next() != 0;
 				if (c.next() != 0) { t.hasImpl = true; t.impl = c.bytes((size_t)c.next()); }
 				if (c.next() != 0) { t.hasDflt = true; t.dflt = c.bytes((size_t)c.next()); }
-				Po::Value* v = 0;
-				switch (t.kind) {
-					case 0: v = Po::flag(t.b); break;
-					case 1: v = Po::flag(t.b, Po::store_false); break;
-					case 2: v = Po::storeTo(t.i); break;
-					case 3: v = Po::storeTo(t.s); break;
-					case 4: v = Po::storeTo(t.v); break;
-					case 5: v = Po::store<int>(vm); break;
-					case 7: v = Po::flag(vm); break;
-					case 8: v = Po::flag(vm, Po::store_false); break;
-					default: v = Po::notify(&log, &customNotify); break;
-				}
-				if (comp)      v->composing();
-				// implicit value, default and (for two thirds of the options) an argument name go through one setter (Value::desc) whose
-				// storage depends on how many were set before: attach them in an order chosen from the case (all six orders occur)
-				{
-					static const int perm[6][3] = {{0,1,2},{0,2,1},{1,0,2},{1,2,0},{2,0,1},{2,1,0}};
-					size_t sel = k * 5 + n + (size_t)t.kind + t.impl.size() * 3 + t.dflt.size();
-					const int* pm = perm[sel % 6];
-					for (int j = 0; j != 3; ++j) {
-						if (pm[j] == 0 && (sel / 6) % 3 != 0) v->arg("<x>");
-						if (pm[j] == 1 && t.hasImpl) v->implicit(t.impl.c_str());
-						if (pm[j] == 2 && t.hasDflt) v->defaultsTo(t.dflt.c_str());
-					}
-				}
-				g.addOptions()(optName((ll)k).c_str(), v, "");
 			}
-			ctx.add(g);
+			os.build(T, vm, log);
 		}
 		catch (const std::exception&) { o.add(-998); o.flush(); continue; }
 		// the second context: FOREIGN plain string options (names continue the numbering of the first context)
@@ -98,17 +119,17 @@ int main() {
 				Po::ParsedOptions ex;
 				if (hasEx) { size_t ne = (size_t)c.next(); for (size_t k = 0; k != ne; ++k) ex.add(optName(c.next())); }
 				size_t np = (size_t)c.next();
-				Po::ParsedValues pv(ctx);
+				Po::ParsedValues pv(*os.ctx);
 				for (size_t k = 0; k != np; ++k) {
 					size_t id = (size_t)c.next(); std::string val = c.bytes((size_t)c.next());
-					if (id < n) pv.add(*(ctx.begin() + id), val);
+					if (id < n) pv.add(*(os.ctx->begin() + id), val);
 				}
 				try { parsed->assign(pv, hasEx ? &ex : 0); }
 				catch (const Po::ValueError& e) { et = 1 + (int)e.type(); ek = e.key(); ev = e.value(); }
 				catch (const std::exception&) { et = 9; }
 			}
 			else if (op == 2) {
-				try { ctx.assignDefaults(*parsed); }
+				try { os.ctx->assignDefaults(*parsed); }
 				catch (const Po::ValueError& e) { et = 1 + (int)e.type(); ek = e.key(); ev = e.value(); }
 				catch (const std::exception&) { et = 9; }
 			}
@@ -125,6 +146,14 @@ int main() {
 				catch (const Po::ValueError& e) { et = 1 + (int)e.type(); ek = e.key(); ev = e.value(); }
 				catch (const std::exception&) { et = 9; }
 			}
+			else if (op == 6) {
+				bool ok = true;
+				try { os.build(T, vm, log); }
+				catch (const std::exception&) { ok = false; }
+				if (!ok) { o.add(-998); break; }
+				parsed.reset(new Po::ParsedOptions());
+				continue;
+			}
 			else break;
 			o.add(et);
 			if (et) {
@@ -135,7 +164,7 @@ int main() {
 			o.add(0);
 			o.add((ll)parsed->size());
 			for (size_t k = 0; k != n; ++k) {
-				const Po::Option& opt = **(ctx.begin() + k);
+				const Po::Option& opt = **(os.ctx->begin() + k);
 				Target& t = T[k];
 				o.add((ll)opt.value()->state());
 				o.add((ll)parsed->count(opt.name()));
@@ -150,6 +179,13 @@ int main() {
 						break;
 					case 7: case 8:
 						if (vm.count(opt.name())) { o.add(1); o.add(Po::value_cast<bool>(vm[opt.name()]) ? 1 : 0); }
+						else o.add(0);
+						break;
+					case 9:
+						if (vm.count(opt.name())) {
+							const std::vector<int>& mv = Po::value_cast<std::vector<int> >(vm[opt.name()]);
+							o.add((ll)mv.size()); for (size_t j = 0; j != mv.size(); ++j) o.add(mv[j]);
+						}
 						else o.add(0);
 						break;
 					default: {
